@@ -8,6 +8,7 @@ import (
 	"runtime/debug"
 	"sort"
 	"strings"
+	"verif/internal/names"
 
 	"github.com/thomasjungblut/go-sstables/simpledb"
 	"verif/internal/fsmodel"
@@ -156,15 +157,15 @@ func Window(b *Boundary, ops []prog.Op) string {
 		return "recovery"
 	case inflight == "close":
 		return "shutdown"
-	case strings.Contains(p, "sstable_compaction") || strings.Contains(b.Last.Path2, "sstable_compaction"):
+	case names.IsCompactionDir(p) || names.IsCompactionDir(b.Last.Path2):
 		return "compaction-write"
-	case inflight == "compact" || (strings.HasPrefix(p, "sstable_") && (b.Last.Op == "unlink" || b.Last.Op == "rmdir" || b.Last.Op == "rename")):
+	case inflight == "compact" || (names.IsTable(p) && (b.Last.Op == "unlink" || b.Last.Op == "rmdir" || b.Last.Op == "rename")):
 		return "compaction-install"
-	case strings.HasPrefix(p, "sstable_"):
+	case names.IsTable(p):
 		return "flush"
-	case strings.HasPrefix(p, "wal") && (b.Last.Op == "create" || b.Last.Op == "unlink" || b.Last.Op == "mkdir" || b.Last.Op == "rmdir"):
+	case names.IsWal(p) && (b.Last.Op == "create" || b.Last.Op == "unlink" || b.Last.Op == "mkdir" || b.Last.Op == "rmdir"):
 		return "wal-rotation"
-	case strings.HasPrefix(p, "wal"):
+	case names.IsWal(p):
 		return "wal-append"
 	}
 	return "other"
